@@ -261,7 +261,17 @@ pub const ASSUMPTIONS: &[&str] = &[
 pub fn spaces(tier: &str, _seed: u64) -> Vec<Box<dyn Space>> {
     let thorough = tier == "thorough";
     let atoms = atoms_core();
-    let lists = if thorough { cone_lists(&atoms, 3, 1, 8) } else { cone_lists(&atoms, 2, 1, 6) };
+    let mut lists = if thorough { cone_lists(&atoms, 3, 1, 8) } else { cone_lists(&atoms, 2, 1, 6) };
+    // several sparse-expanded cones in one problem (each alone is in the lists above)
+    {
+        use ConeSpec::*;
+        lists.push(vec![SOC(5), SOC(5)]);
+        lists.push(vec![SOC(6), NN(1), SOC(5)]);
+        lists.push(vec![SOC(5), SOC(7), SOC(5)]);
+        lists.push(vec![GenPow(vec![0.2, 0.3, 0.5], 2), GenPow(vec![0.5, 0.5], 1)]);
+        lists.push(vec![SOC(5), GenPow(vec![0.5, 0.5], 1), SOC(6)]);
+        lists.push(vec![PSD(2), SOC(5), Exp, SOC(5)]);
+    }
     use ConeSpec::*;
     let rep_lists: Vec<Vec<ConeSpec>> = vec![
         vec![NN(2)],
